@@ -347,10 +347,10 @@ def do_op(w, objs, op):
             writes = bool(set(mode) & set("wax+"))
             if op[5]:
                 with objs[op[1]].open(mode) as f:
-                    f.write(payload) if writes else f.read()
+                    f.write(payload) if writes else f.read(0)
             else:
                 f = objs[op[1]].open(mode)
-                f.write(payload) if writes else f.read()
+                f.write(payload) if writes else f.read(0)
                 f.close()
             return "ok"
         if k == "remove":
